@@ -55,6 +55,8 @@ const HOSTILE: &[&str] = &[
     "two  spaces",
     "tab\there",
     "line\nbreak",
+    "carriage\rreturn",
+    "crlf\r\nbreak",
     "    Assets:Fake    1000 JPY",
     " leading space",
     "trailing space ",
@@ -97,7 +99,16 @@ fn gen_rules(rng: &mut Rng, rich: bool, has_category: bool, has_sec: bool) -> Ve
         "cashback|Wire",
         "(?P<payee>[A-Z]+) AG",
     ];
-    let accounts = ["Expenses:Grocery", "Assets:Cash", "Income:Salary", "Expenses:Cafe", "Assets:Wire", "Income:Misc"];
+    let accounts = [
+        "Expenses:Grocery",
+        "Assets:Cash",
+        "Income:Salary",
+        "Expenses:Cafe",
+        "Assets:Wire",
+        "Income:Misc",
+        "Expenses:Household:Maintenance:Repairs:Plumbing and Heating",
+        "資産:立替金:長い名前の勘定科目:さらに長い補助科目名",
+    ];
     let n = if rich { 1 + rng.usize(6) } else { rng.usize(4) };
     for _ in 0..n {
         let mut matcher = Vec::new();
@@ -138,7 +149,13 @@ pub fn gen_sc_pub(rng: &mut Rng, flavour: u8) -> Sc {
 fn gen_sc(rng: &mut Rng, flavour: u8) -> Sc {
     let hostile = flavour == 15;
     let liability = rng.chance(1, 3);
-    let account = if liability { "Liabilities:Okane Card" } else { "Assets:Okane Bank" };
+    let account = if hostile && rng.chance(1, 4) {
+        "Assets:Okane Bank:Private Banking:Joint Account:Savings Plan 2024"
+    } else if liability {
+        "Liabilities:Okane Card"
+    } else {
+        "Assets:Okane Bank"
+    };
     let (primary, dp) = COMMODITIES[rng.usize(COMMODITIES.len())];
     let file = "/w/in/bank/okane/2024-stmt.csv".to_string();
     // ---- layout ----
@@ -375,6 +392,27 @@ fn gen_sc(rng: &mut Rng, flavour: u8) -> Sc {
                 } else {
                     // 1 secondary == r row-commodity. buy: the account pays s*r (+ fee); sell: it receives s*r (- fee)
                     s = small_amount(rng, 2);
+                    if hostile && spec.amount == "compute" && rng.chance(1, 2) {
+                        // an amount the rate does not divide: the computed quantity has 28 digits
+                        conv = Some(RecConv {
+                            commodity: sec.to_string(),
+                            amount: s,
+                            rate: Dec::new(3 + 4 * rng.below(200) as i64, 2),
+                        });
+                        bal += amount;
+                        recs.push(Rec {
+                            date,
+                            payee: text(rng, PAYEES, hostile),
+                            amount,
+                            category: String::new(),
+                            note: String::new(),
+                            commodity: row_com,
+                            conv,
+                            charge: None,
+                            balance: if has_balance { Some(bal) } else { None },
+                        });
+                        continue;
+                    }
                     let value = s * r;
                     amount = if amount.is_sign_negative() { -(value + c.unwrap_or(Dec::ZERO)) } else { value - c.unwrap_or(Dec::ZERO) };
                     if amount.is_zero() || (amount.is_sign_positive() && value <= c.unwrap_or(Dec::ZERO)) {
@@ -732,6 +770,14 @@ pub fn diff_cause(field: &str, built: &CTxn, read: &CTxn) -> String {
     let p = built.payee.as_str();
     match field {
         "payee" | "code" | "state" => {
+            if field == "code" && built.code.as_deref().map(|c| c.contains(')')).unwrap_or(false) {
+                return "code contains ')'".to_string();
+            }
+            // a code that appears from nowhere comes from the payee's leading parenthesis,
+            // whatever else the payee contains
+            if field == "code" && built.code.is_none() && p.starts_with('(') {
+                return "payee starts with '('".to_string();
+            }
             if p.contains(';') {
                 return "payee contains ';'".to_string();
             }
